@@ -75,6 +75,18 @@ class ScriptedFaultError(RuntimeError):
     pass
 
 
+def _scripted_error(spec, text):
+    """what the scripted fault raises: ScriptedFaultError, or an exception class an evaluator that
+    talks to a server raises for real (spec["exc"]: ConnectionResetError, BrokenPipeError, EOFError,
+    OSError, TimeoutError, KeyError)"""
+    name = spec.get("exc")
+    if not name:
+        return ScriptedFaultError(text)
+    import builtins
+
+    return getattr(builtins, name)(text)
+
+
 class ScriptedEngine(object):
     def __init__(self, worker, spec, d):
         self.worker = worker
@@ -98,7 +110,7 @@ class ScriptedEngine(object):
         length = 1 + (self.seq + self.worker) % 3
         if self.spec.get("game", {}).get(str(self.worker)) == self.seq and position.ply == length - 1:
             _marker(self.dir, "fault-game-%d" % self.worker)
-            raise ScriptedFaultError("scripted evaluator failure in worker %d game %d" % (self.worker, self.seq))
+            raise _scripted_error(self.spec, "scripted evaluator failure in worker %d game %d" % (self.worker, self.seq))
         slow = self.spec.get("slow", 0.0)
         if slow:
             time.sleep(slow)
@@ -162,7 +174,7 @@ class ScriptedFactory(object):
             compress_waits(self.spec["compress"])
         if j in self.spec.get("factory", []):
             _marker(self.dir, "fault-factory-%d" % j)
-            raise ScriptedFaultError("scripted engine-factory failure in worker %d" % j)
+            raise _scripted_error(self.spec, "scripted engine-factory failure in worker %d" % j)
         if j in self.spec.get("killinit", []):
             _marker(self.dir, "window-init-%d" % j)
             time.sleep(120)
